@@ -26,6 +26,12 @@ def _chunks(tier):
                  frozenset({("b", "a"), ("c", "a")}), frozenset({("a", "b"), ("a", "c")})]
         for ri in range(len(S.RET_FORMS)):
             units.append((("a", "b", "c"), ["none", "&'x self on Op"], ALL_PARAMS, 1, ri, chain))
+        # five method lifetimes (more than the inline capacity of small-vector style buffers), chains and a back edge
+        l5 = ("a", "b", "c", "d", "e")
+        fam5 = [frozenset(), frozenset({("a", "b"), ("b", "c"), ("c", "d"), ("d", "e")}), frozenset({("e", "a")}), frozenset({("e", "d"), ("d", "c"), ("c", "b"), ("b", "a")})]
+        for ri in range(len(S.RET_FORMS)):
+            if S.RET_FORMS[ri].holes <= 1:
+                units.append((l5, ["none", "&'x self on Op"], ["&'x Op", "&'x [u8]", "SB<'x>"], 1, ri, fam5))
         # static methods of `impl<'y> OpL<'y>` taking `&'x Self` next to one more parameter (Self in a non-receiver position)
         for ri in range(len(S.RET_FORMS)):
             units.append((("a", "b"), ["static on OpL<'y>"], ["&'x Self", "&'x Op", "SB<'x>", "&'x [u8]", "&'x OpL<'y>"], 2, ri, None))
